@@ -34,7 +34,7 @@ func init() {
 	Register(&Check{
 		ID:    "C04",
 		Level: "exploration",
-		Rule: "(A) all priority vectors over 3 services for one tag, each service in {not tagged, -1, 0 string form, 0 map form, 1, maxint} (6^3; thorough adds minint and a second tag: 7^3 + 12^3), consumers requesting !tagged as constructor argument, field and call argument; (B) all decorator/tag incidence matrices for 2 decorators x 2 tags x 2 services (4 x 16) x 3 decorator argument sets; (C) 3 decorators and split tag lists distributed over 3 files in all 27 assignments; (E) tag lists of two services extended by later files in all 8 combinations; (D) scopes of tagged services (shared, non_shared, contextual). " +
+		Rule: "(A) all priority vectors over 3 services for one tag, each service in {not tagged, -1, 0 string form, 0 map form, 1, maxint} (6^3; thorough adds minint and a second tag: 7^3 + 12^3), consumers requesting !tagged as constructor argument, field and call argument; (B) all decorator/tag incidence matrices for 2 decorators x 2 tags x 2 services (4 x 16) x 3 decorator argument sets; (C) 3 decorators and split tag lists distributed over 3 files in all 27 assignments; (E) tag lists of two services extended by later files in all 8 combinations; (F) every decorator word of length <= 3 (thorough 4) over two tags on services carrying both / one of them; (G) decorators and calls arriving through one pattern with a wildcard directory segment (6 directory pairs); (H) thirteen carriers whose names differ in case, digits and separators; (D) scopes of tagged services (shared, non_shared, contextual). " +
 			"Each configuration is executed in a probe (Get consumer, GetTaggedBy, Get of every carrier, GetInContext) and compared with the reference model. non-trivial/distinct = distinct executed configuration",
 		Assumptions: []string{"decorator tag '*' is outside the statement (the documentation does not define it) and is not generated"},
 		BudgetQuick: 280 * time.Second, BudgetThorough: 1500 * time.Second,
@@ -271,6 +271,28 @@ func init() {
 					{Name: "consumer", Constructor: P("pk2.New"), Args: []any{"!tagged t"}}}}
 				cases = append(cases, &BCase{ID: fmt.Sprintf("G/wildcard-directories=%d", gi), Cfg: merged,
 					Files: []File{{"base.yaml", base.YAML()}, {da, fa.YAML()}, {db, fb.YAML()}}, Patterns: []string{"base.yaml", "conf/*/*.yaml"}, Sessions: []BSession{{Ops: stdOps()}}})
+			}
+			// (H) "service name ascending" on names that differ in case, digits and separators: equal priorities, and one
+			// priority tie broken against the name order
+			{
+				nameSet := []string{"b", "B", "a10", "a9", "a", "a-b", "a.b", "a_b", "aB", "Z9", "z", "a1", "A"}
+				for v := 0; v < 3; v++ {
+					cfg := &Cfg{Meta: stdMeta()}
+					for i, n := range nameSet {
+						sv := Service{Name: n, Constructor: P("pk.New"), Args: []any{n}}
+						switch v {
+						case 0:
+							sv.Tags = []Tag{{Name: "t"}}
+						case 1:
+							sv.Tags = []Tag{{Name: "t", Priority: P(i % 2)}}
+						case 2:
+							sv.Tags = []Tag{{Name: "t", Priority: P(-(i % 3))}, {Name: "u", Priority: P(i / 4)}}
+						}
+						cfg.Services = append(cfg.Services, sv)
+					}
+					cfg.Services = append(cfg.Services, Service{Name: "consumer", Constructor: P("pk2.New"), Args: []any{"!tagged t", "!tagged u"}})
+					cases = append(cases, &BCase{ID: fmt.Sprintf("H/name-order=%d", v), Cfg: cfg, Sessions: []BSession{{Ops: []ProbeOp{op("get", "consumer"), opTag("tagged", "t"), opTag("tagged", "u"), opCtx("taggedctx", "A", "t")}}}})
+				}
 			}
 			// (D) scopes of carriers
 			scopes := []*string{nil, P("shared"), P("non_shared"), P("contextual")}
